@@ -25,11 +25,12 @@ W = "orquestra.quantum.wavefunction"
 MANIFEST = {
     "engine": "engine-F",
     "category": "other",
-    "technique": "contract-based verification of frame conditions (static ownership analysis) on the view functions; the cross-view agreement postconditions (key q / tuple position q / operator index q / gate qubit q denote the same qubit) are checked by exhaustive enumeration over all widths <= 4, all basis states and separable states with pairwise distinct one-qubit marginals, every qubit subset, and both sampling regimes (bounded stand-in: the code is numpy / string formatting / RNG, outside the VC generator's fragment)",
+    "technique": "contract-based deductive verification of sample_from_wavefunction for ALL wavefunctions, sample counts and both sampling regimes (Engine V, z3: exactly n_samples samples, each the tuple form of an outcome key of non-zero probability, the same conversion in both branches, never the zero-probability padding entry; fewer than one sample raises; numpy's Generator.choice assumed to return entries at indices of positive probability); contract-based verification of frame conditions (static ownership analysis) on the view functions; the cross-view agreement postconditions (key q / tuple position q / operator index q / gate qubit q denote the same qubit) are checked by exhaustive enumeration over all widths <= 4, all basis states and separable states with pairwise distinct one-qubit marginals, every qubit subset, and both sampling regimes (bounded stand-in: the code is numpy / string formatting / RNG, outside the VC generator's fragment)",
     "text": "A qubit-numbering mismatch in any single view changes at least one probability of a separable state whose one-qubit marginals are pairwise different, and at least one outcome of some basis state; those states are enumerated for every width up to 4 together with every Z-subset - exhaustive for the stated widths, not a proof for all widths: level 'other'.",
     "note": "Trusted: numpy/scipy/RNG executed natively; Engine F summaries. Bound: width <= 4 (5 thorough).",
 }
-TRUSTED = ["vfw/frame.py", "numpy / scipy / itertools executed natively"]
+TRUSTED = ["vfw/frame.py", "numpy / scipy / itertools executed natively", "numpy Generator.choice(a, size, p): `size` entries of `a`, each at an index of positive probability (assumed; statistics are not a contract)",
+           "convert_bitstrings_to_tuples = bitstring_to_tuple mapped over its argument; `name += symbolic sequence` read as concatenation (the local list is not aliased)"]
 ASSUMPTIONS = ["bounded in register width (4 quick / 5 thorough); complete over qubit subsets, basis states and both sampling regimes for those widths",
                "the sampler's statistics are not a contract: only support, length and count of samples"]
 EXTRA = {"explanation": "frame obligations decided statically; agreement of the views enumerated exhaustively per width"}
@@ -298,6 +299,8 @@ def build(tier, seed):
         return Ob(f"C04.frame[{key.split(':')[1]}]", "proof", [key], run, f"{key.split(':')[1]} does not modify the wavefunction / circuit / operator it reads", fallback=fb)
     for k in F_OPS:
         obs.append(frame_ob(k))
+    from props import C04sample
+    obs.extend(C04sample.build(fb))
     obs.append(vprop.enum_ob("C04.views.enum", F_OPS, lambda: range(1, 5 if tier == "quick" else 6), _check_width,
                              "bounded-exhaustive per width: amplitudes, outcome-prob keys, exact distribution, exact <Z_S> for every subset S, sampled tuples (both sampling regimes, "
                              "function and runner), count strings and measured <Z_S> all use 'position q = qubit q' on basis states and on a separable state with distinct marginals", timeout=1500))
